@@ -151,9 +151,21 @@ func tagEnc(ts []PTag) string {
 	return strings.Join(parts, "&")
 }
 
+// docSplit: with the extra file zdoc.go the package-level tags do not all stand in a.go — the last tag (the only one,
+// if there is one) stands in zdoc.go's package comment
+func (p PPkg) docSplit() (inA, inDoc []PTag) {
+	for _, e := range p.Extra {
+		if e == "zdoc.go" && len(p.PkgTags) > 0 {
+			return p.PkgTags[:len(p.PkgTags)-1], p.PkgTags[len(p.PkgTags)-1:]
+		}
+	}
+	return p.PkgTags, nil
+}
+
 func (p PPkg) source() string {
 	var b strings.Builder
-	b.WriteString(tagLines(p.PkgTags, ""))
+	inA, _ := p.docSplit()
+	b.WriteString(tagLines(inA, ""))
 	fmt.Fprintf(&b, "package %s\n\n", p.Dir)
 	for _, t := range p.Types {
 		switch t.Kind {
@@ -235,6 +247,10 @@ func (s *PScn) materialise(dir string) error {
 				continue
 			}
 			content := fmt.Sprintf("package %s\n", p.Dir)
+			if e == "zdoc.go" {
+				_, inDoc := p.docSplit()
+				content = tagLines(inDoc, "") + content
+			}
 			if strings.HasPrefix(e, pipeBase+".") && strings.HasSuffix(e, ".go") {
 				// an output of an earlier generation, longer than anything this run writes
 				content += "\n" + strings.Repeat("// line of an earlier generation\nvar _ = 0\n\n", 30)
